@@ -95,7 +95,7 @@ package inode
 //@   ensures [S2-decode-times] uint32(result.Atime.Seconds) == le32(buf.Data, 32) && uint32(result.Atime.Nseconds) == le32(buf.Data, 36) && uint32(result.Mtime.Seconds) == le32(buf.Data, 40) && uint32(result.Mtime.Nseconds) == le32(buf.Data, 44) @C10
 //@   ensures [S2-decode-blks] len(result.blks) == 10 && (forall k uint64 :: k < 10 ==> result.blks[k] == le64(buf.Data, 48 + 8*k)) @C10 @C11
 //@   ensures result.Dcache == nil
-//@   assumes [I1-disk] forall k uint64 :: k < 10 ==> result.blks[k] == 0 || validBlk(result.blks[k])
+//@   assumes [I1-disk] blksValid(result)
 //@   assumes [I7-disk] result.Size <= 1073774592 && result.ShrinkSize <= 262664
 
 // Transaction-side preconditions shared by the inode operations.
